@@ -63,6 +63,18 @@ impl Xoshiro256StarStar {
         r.state@.len() == 4,
     @*/
 
+    /*@fn impl=Xoshiro256StarStar trait=Iterator name=next subst=Self::Item=>u64
+    ensures
+        r is Some,
+        r->0 == xoshiro_out(old(self).state@),
+        final(self).state@ == xoshiro_step(old(self).state@),
+    @*/
+
+    /*@fn impl=Xoshiro256StarStar name=next_bool
+    ensures
+        final(self).state@ == xoshiro_step(old(self).state@),
+        r == (xoshiro_out(old(self).state@) & 1 == 1),
+    @*/
 }
 } // verus!
 fn main() {}
